@@ -166,6 +166,11 @@ structure DrvSt where
   tq : TQ.St := TQ.init
   ep : EP.St := EP.init
   epc : EPC.St := EPC.init
+  /-- split `InvalidateDialerNetworkType`: the bucket snapshot and the number of retires so far -/
+  epSnap : List Nat := []
+  epInvalN : Nat := 0
+  /-- split creation: the endpoint object dialled but not published yet -/
+  epPending : Option EP.Ep := none
 
 def boolTok? : String → Option Bool
   | "1" => some true | "0" => some false | _ => none
@@ -368,6 +373,45 @@ def handleEp (st : DrvSt) (toks : List String) : DrvSt × String :=
     | some d => let r := EP.invalidate s d; upd r.1 s!"removed={r.2}"
     | none => (st, "bad-op")
   | ["resetpool"] => upd (EP.reset EpDrv.nkeys s) "ok"
+  -- InvalidateDialerNetworkType step by step (parked at invalidate.afterEpochBump / retire.afterMarkDead)
+  | ["ibump", d] =>
+    match d.toNat? with
+    | some d => upd (EP.invalBump s d) "ok"
+    | none => (st, "bad-op")
+  | ["isnap", d] =>
+    match d.toNat? with
+    | some d => ({ st with epSnap := EP.bucket s d, epInvalN := 0 }, "ok")
+    | none => (st, "bad-op")
+  | ["markdead", e] =>
+    match e.toNat? with
+    | some e =>
+      -- the loop retires a snapshot member only if it carried no traffic at that moment
+      if st.epSnap.contains e && !(s.eps e).survives then
+        ({ st with ep := EP.markDead s e, epInvalN := st.epInvalN + 1 }, "ok")
+      else (st, "model-would-not-retire")
+    | none => (st, "bad-op")
+  | ["retirefin", e] =>
+    match e.toNat? with
+    | some e => upd (EP.closeEp (EP.selfRemove s e) e) "ok"
+    | none => (st, "bad-op")
+  | ["iend"] =>
+    -- `survives` only ever turns true, so a member that is untouched now was untouched when the loop saw it
+    let missed := st.epSnap.filter fun e => !(s.eps e).dead && !(s.eps e).closed && !(s.eps e).survives
+    if missed.isEmpty then ({ st with epSnap := [] }, s!"removed={st.epInvalN}")
+    else (st, s!"model-would-also-retire={joinNat missed}")
+  -- GetOrCreate's creation step by step (parked at create.beforePublish)
+  | ["gocprep", k, sym, nat, owner, drain, d] =>
+    match k.toNat?, boolTok? sym, nat.toNat?, EpDrv.optTok? owner, EpDrv.optTok? drain, d.toNat? with
+    | some k, some sym, some nat, some owner, some drain, some d =>
+      if EP.blockedBy s k || (EP.reuseOf s k).isSome then (st, "model-would-not-create")
+      else
+        ({ st with ep := EP.countDial (EP.prepCreate s k drain d),
+                   epPending := some (EP.createRecord s k sym (EpDrv.ms nat) owner drain d) }, "ok")
+    | _, _, _, _, _, _ => (st, "bad-op")
+  | ["gocpub"] =>
+    match st.epPending with
+    | some E => ({ st with ep := EP.publishEp s E, epPending := none }, s!"new {s.neps}")
+    | none => (st, "bad-op")
   | ["track", e, j] =>
     match e.toNat?, j.toNat? with
     | some e, some j => upd (EP.track s e j) "ok"
